@@ -9,6 +9,7 @@ func init() {
 	vpRegister("c12_witness", vpH_c12_witness)
 	vpRegister("c12_transform", vpH_c12_transform)
 	vpRegister("c12_scope", vpH_c12_scope)
+	vpRegister("c12_badtoken", vpH_c12_badtoken)
 }
 
 // The property's token language, written without reference to the code:
@@ -209,4 +210,55 @@ func vpH_c12_scope() {
 	vpAssert(step.Key == "k"+tok, "the step key is unchanged")
 	vpAssert(step.Signature == sig && sig.Algorithm == tok && sig.Value == tok && sig.SignedFields[0] == tok, "the signature is unchanged")
 	vpAssert(step.Matrix == m && len(m.Setup) == 1 && len(m.Setup[dim]) == 2 && m.Setup[dim][0] == v && m.Setup[dim][1] == tok && m.RemainingFields[tok] == any(tok), "the matrix definition is unchanged")
+}
+
+// A token that names a dimension the permutation does not have makes the call
+// fail, at whichever in-scope position it stands and whatever stands next to it
+// (plugins with and without configs, nested config values, several plugins).
+func vpH_c12_badtoken() {
+	bad := "{{matrix.nope}}"
+	good := "{{matrix.os}}"
+	step := &CommandStep{
+		Command: "c " + good,
+		Label:   "l",
+		Plugins: Plugins{
+			{Source: "bare#v1"},
+			{Source: "cfg#v1", Config: map[string]any{"k": "v " + good, "n": []any{"e"}}},
+			{Source: "scalar#v1", Config: "s"},
+		},
+		Env:             map[string]string{"E": "v"},
+		Matrix:          &Matrix{Setup: MatrixSetup{"os": {"x"}}},
+		RemainingFields: map[string]any{"r": "s", "deep": map[string]any{"d": []any{"z"}}},
+	}
+	pos := vpInt(0, 12)
+	switch pos {
+	case 0:
+		step.Command = "c " + bad
+	case 1:
+		step.Label = bad
+	case 2:
+		step.Plugins[0].Source = "bare-" + bad + "#v1"
+	case 3:
+		step.Plugins[1].Source = "cfg-" + bad + "#v1"
+	case 4:
+		step.Plugins[2].Source = "scalar-" + bad + "#v1"
+	case 5:
+		step.Plugins[1].Config = map[string]any{"k": bad}
+	case 6:
+		step.Plugins[1].Config = map[string]any{bad: "v"}
+	case 7:
+		step.Plugins[1].Config = map[string]any{"n": []any{"e", bad}}
+	case 8:
+		step.Plugins[2].Config = bad
+	case 9:
+		step.Env["E"] = bad
+	case 10:
+		step.RemainingFields["r"] = bad
+	case 11:
+		step.RemainingFields = map[string]any{bad: "s"}
+	case 12:
+		step.RemainingFields["deep"] = map[string]any{"d": []any{"z", bad}}
+	}
+	err := step.InterpolateMatrixPermutation(MatrixPermutation{"os": "x"})
+	vpAssert(err != nil, "a token naming a dimension the permutation lacks makes the call fail, at every in-scope position")
 }
